@@ -331,9 +331,14 @@ def run(chk):
             continue
         for ap in appends:
             # enclosing If that decides the append
-            gs = [(t, pol) for t, pol in cfg.guards(ap)]
-            ifs = [a for a in fi.module.ancestors(ap) if isinstance(a, ast.If)]
-            ifs = [a for a in ifs if any(a is x for x in walk_no_nested(fi.node))]
+            # the tests that must have gone a particular way whenever the append runs (enclosing ifs *and* earlier guard clauses
+            # such as `if acceptable: return self`), most recent first
+            facts = cfg.must_facts().get(id(ap), frozenset())
+            ifs = [cfg.stmt_of[f_.test_id] for f_ in facts if isinstance(cfg.stmt_of.get(f_.test_id), ast.If)]
+            works_ids = {id(w) for w in info["works"]}
+            # only tests evaluated after the fitting call can be the poor-fit test
+            ifs = [a for a in ifs if any(cfg.paths_avoiding(id(w), id(a), set()) for w in info["works"])]
+            ifs.sort(key=lambda a: -getattr(a, "lineno", 0))
             if not ifs:
                 r5.require(False, f"{fi.key}|poor-fit-unconditional", fi.where(ap), f"{fi.key}: disqualification appended unconditionally")
                 continue
@@ -441,14 +446,19 @@ def _persistence(chk, r6):
         # (c) reader: from_dict assigns <model>.disqualification from the document's key, decoded to warning objects
         ok_reader = False
         detail = None
-        for n in walk_no_nested(from_dict.node):
-            if isinstance(n, ast.Assign):
-                for t in n.targets:
-                    if isinstance(t, ast.Attribute) and t.attr == "disqualification" and isinstance(t.value, ast.Name) and t.value.id != "self":
-                        v = unparse(n.value)
-                        detail = v
-                        if "disqualification" in v:
-                            ok_reader = True
+        from rules.common import attr_stores, flows_from
+
+        def _doc_key(n):
+            # <doc>.get('disqualification') / <doc>['disqualification'] / <doc>.disqualification
+            if isinstance(n, ast.Call) and isinstance(n.func, ast.Attribute) and n.func.attr == "get" and n.args and isinstance(n.args[0], ast.Constant) and n.args[0].value == "disqualification":
+                return True
+            if isinstance(n, ast.Subscript) and isinstance(n.slice, ast.Constant) and n.slice.value == "disqualification":
+                return True
+            return isinstance(n, ast.Attribute) and n.attr == "disqualification" and isinstance(n.ctx, ast.Load)
+        for st, recv, v in attr_stores(from_dict, "disqualification", self_ok=False):
+            detail = unparse(v)
+            if flows_from(from_dict, st, v, _doc_key):
+                ok_reader = True
         r6.require(ok_reader, f"{from_dict.key}|reader-key", from_dict.where(),
                    f"{from_dict.key}: the model's `disqualification` is not restored from the document's `disqualification` entry (found: {detail})")
         # decoded into objects (truthiness preserved: list of dicts or of EEMeterWarning, never dropped/emptied)
